@@ -21,10 +21,108 @@ type Op struct {
 	Kind   int
 	Client int    // kClient: who; kAdmin / kMal(stolen): whose id
 	API    string // "mw" | "st" | "adm"
-	Act    string // get touch set setns del destroy regen reset login | getbyid getbyidset delete resetall
+	Act    string // get touch set setns del destroy regen reset login seq | getbyid getbyidset delete resetall
 	K, V   string
+	Seq    []Act  // Act == "seq": the API calls the handler of this ONE request performs, in order
 	Forge  string // kMal: evil | unissued | destroyed | stolen
 	Tick   int
+}
+
+// Act is one API call inside a compound request (Op.Act == "seq").
+type Act struct {
+	Name string // get set del destroy regen reset save
+	K, V string
+}
+
+func (a Act) String() string {
+	switch a.Name {
+	case "set":
+		return a.Name + "." + a.K + "." + a.V
+	case "del":
+		return a.Name + "." + a.K
+	}
+	return a.Name
+}
+
+// seqLetters are the API calls a compound request is made of. Between any two of them (and
+// after the last) the handler reads ID(), Fresh(), Keys() and Get of every key, so the
+// read-only calls are interleaved with every ordered combination. "save" is Session.Save():
+// the store API's way to persist; on a middleware-managed session it is documented to have
+// no effect (the middleware saves when the handler returns).
+var seqLetters = []Act{
+	{Name: "get", K: "k1"},
+	{Name: "set", K: "k2", V: "v2"},
+	{Name: "del", K: "k1"},
+	{Name: "destroy"},
+	{Name: "regen"},
+	{Name: "reset"},
+	{Name: "save"},
+}
+
+func seqName(seq []Act) string {
+	parts := make([]string, len(seq))
+	for i, a := range seq {
+		parts[i] = a.String()
+	}
+	return strings.Join(parts, "+")
+}
+
+// seqClass names what a compound request does to its session, coarsely: the first call that
+// ends the session's id (Destroy / Regenerate / Reset) and whether a write (Set, Delete, Save)
+// follows it in the same request.
+func seqClass(seq []Act) string {
+	for i, a := range seq {
+		var ender string
+		switch a.Name {
+		case "destroy":
+			ender = "destroy"
+		case "regen":
+			ender = "regenerate"
+		case "reset":
+			ender = "reset"
+		default:
+			continue
+		}
+		for _, b := range seq[i+1:] {
+			if b.Name == "set" || b.Name == "del" || b.Name == "save" {
+				return "write-after-" + ender
+			}
+		}
+		if i+1 < len(seq) {
+			return "calls-after-" + ender
+		}
+		return ender + "-last"
+	}
+	return "no-id-change"
+}
+
+// allSeqs: every sequence of exactly n letters, in letter order.
+func allSeqs(n int) [][]Act {
+	if n == 0 {
+		return [][]Act{nil}
+	}
+	var out [][]Act
+	for _, pre := range allSeqs(n - 1) {
+		for _, a := range seqLetters {
+			out = append(out, append(append([]Act(nil), pre...), a))
+		}
+	}
+	return out
+}
+
+// buildCompound: user A's compound requests (every ordered pair and every ordered triple of
+// seqLetters, through each API). They are letters of the compound families only: the
+// full-alphabet families and the de-duplicating search keep the one-call-per-request alphabet.
+func buildCompound() []Op {
+	var ops []Op
+	for _, n := range []int{2, 3} {
+		for _, api := range []string{"mw", "st"} {
+			for _, seq := range allSeqs(n) {
+				ops = append(ops, Op{Name: "A." + api + ".seq." + seqName(seq), Kind: kClient, Client: 0, API: api, Act: "seq", Seq: seq})
+			}
+		}
+	}
+	return ops
 }
 
 var clientNames = []string{"A", "B"}
@@ -98,7 +196,10 @@ func buildAlphabet() []Op {
 	return ops
 }
 
-var alphabet = buildAlphabet()
+var (
+	baseAlphabet = buildAlphabet()
+	alphabet     = append(append([]Op(nil), baseAlphabet...), buildCompound()...)
+)
 
 // Family is one exhaustive enumeration: every history of at most Depth letters of Ops.
 type Family struct {
@@ -111,6 +212,16 @@ type Family struct {
 	// (buffer reuse and the absolute deadline do not interact; the idle timeout stays in)
 	Ctx       string
 	Symmetric bool // the alphabet is closed under A<->B: histories whose first user is B are skipped
+	// Compound != nil: the family enumerates the histories of at most Depth requests in which
+	// EXACTLY ONE request is a letter of Compound (several API calls in one request) and the
+	// others are letters of Ops; prefixes without a compound request are histories of the
+	// full-alphabet family and are not replayed again.
+	Compound []int
+}
+
+// letters: every letter a history of the family can contain.
+func (f Family) letters() []int {
+	return append(append([]int(nil), f.Ops...), f.Compound...)
 }
 
 func names(list ...string) []int {
@@ -125,8 +236,9 @@ func names(list ...string) []int {
 	return out
 }
 
+// fullAlphabet: every one-call-per-request letter.
 func fullAlphabet() []int {
-	out := make([]int, len(alphabet))
+	out := make([]int, len(baseAlphabet))
 	for i := range out {
 		out[i] = i
 	}
@@ -162,6 +274,28 @@ func timingOps() []int {
 		"A.st.get", "A.st.touch", "A.st.reset",
 		"M.mw.stolenA", "adm.getbyid.A",
 		"tick.7", "tick.11")
+}
+
+// contextOps: the one-call requests around a compound request - A and B create and read
+// sessions through either API, M arrives without a valid id (fresh session) or with A's /
+// the ended one, an administrator reads A's session by id.
+func contextOps() []int {
+	return names(
+		"A.mw.set.k1.v1", "A.st.set.k1.v1", "A.mw.get", "A.st.get",
+		"B.mw.set.k1.v2", "B.st.set.k2.v1", "B.mw.get", "B.st.get",
+		"M.mw.evil", "M.st.evil", "M.mw.destroyed", "M.mw.stolenA",
+		"adm.getbyid.A")
+}
+
+// compoundOps: A's compound requests of exactly n calls, both APIs.
+func compoundOps(n int) []int {
+	var out []int
+	for i, o := range alphabet {
+		if o.Act == "seq" && len(o.Seq) == n {
+			out = append(out, i)
+		}
+	}
+	return out
 }
 
 func opNames(idx []int) []string {
